@@ -309,8 +309,8 @@ example :
     * on the table: `tableOK`, every conjunct of which is needed (`C06_op_roundtrip_priority_witness`,
       `…_infix_postfix_witness`, `…_comma_witness`, `…_bar_witness`, `…_brackets_witness`) and which holds of
       every table op/3 can produce (`C06_tableOK_of_valid`, `C18_inv`);
-    * on the writer's parameters: `EnvOK` (variable names are distinct `_`-tokens, `FormatFloat` round-trips),
-      `SignOK` (sign of the float text = sign bit) and `CapOK` (`C06_op_roundtrip_capital_witness`; true of
+    * on the writer's parameters: `EnvOK` (variable names are distinct `_`-tokens, `FormatFloat` round-trips)
+      and `CapOK` (`C06_op_roundtrip_capital_witness`; true of
       the real character tables, `C06_capOK_driver`). -/
 def C06_op_roundtrip_statement : Prop :=
   ∀ (e : Env) (ops : Ops.Table) (dq : Read.DoubleQuotes) (t : Term),
@@ -324,43 +324,43 @@ def C06_op_roundtrip_statement : Prop :=
     notation of any arity), EVERY operator table with `tableOK` (in particular every table reachable through
     op/3, `C06_tableOK_of_valid`) and every double_quotes flag.  Hypotheses:
     * `EnvOK e G P`, `numsOK P T`, `wfTerm T` as for P1 (`C06_canonical_roundtrip`);
-    * `SignOK G P`: `FormatFloat` prints `-` exactly for floats with the sign bit set (the writer decides
-      brackets and spaces by `math.Signbit`; follows from `EnvOK.fltLaw` and `parseBits < 2^63`, not proved);
+      (that `FormatFloat` prints `-` exactly for floats with the sign bit set — the writer decides brackets
+      and spaces by `math.Signbit` — follows from `EnvOK.fltLaw`: `Write.signOK_of_envOK`);
     * `CapOK e.cfg`: the character-class oracle counts no graphic character as a capital letter (true of
       Go's tables: `C06_capOK_driver`; needed: `C06_op_roundtrip_capital_witness`);
     * `tableOK ops` (needed: the `…_witness` theorems below, one per conjunct);
     * `noVAR T` (needed: `C06_op_roundtrip_numbervars_witness`). -/
-theorem C06_op_roundtrip (e : Env) (G : UInt64 → GText) (P : UInt64 → Bool) (he : EnvOK e G P) (hs : SignOK G P)
+theorem C06_op_roundtrip (e : Env) (G : UInt64 → GText) (P : UInt64 → Bool) (he : EnvOK e G P)
     (hcap : CapOK e.cfg) (ops : Ops.Table) (hops : tableOK ops = true) (dq : Read.DoubleQuotes) (t : Term)
     (hw : wfTerm t = true) (hn : numsOK P t = true) (hv : noVAR t = true) :
     Read.readTerm e.cfg ops dq (writeq e ops t ++ [' ', '.']) = .ok t.canon :=
-  readTerm_writeq e G P he hs hcap ops hops dq t hw hn hv
+  readTerm_writeq e G P he hcap ops hops dq t hw hn hv
 
 /-- … in particular under every operator table that satisfies the invariant `Ops.Valid` of C18, i.e. every
     table reachable from the default table through op/3 (`C18_inv`) -/
-theorem C06_op_roundtrip_valid (e : Env) (G : UInt64 → GText) (P : UInt64 → Bool) (he : EnvOK e G P) (hs : SignOK G P)
+theorem C06_op_roundtrip_valid (e : Env) (G : UInt64 → GText) (P : UInt64 → Bool) (he : EnvOK e G P)
     (hcap : CapOK e.cfg) (ops : Ops.Table) (hvalid : Ops.Valid ops) (dq : Read.DoubleQuotes) (t : Term)
     (hw : wfTerm t = true) (hn : numsOK P t = true) (hv : noVAR t = true) :
     Read.readTerm e.cfg ops dq (writeq e ops t ++ [' ', '.']) = .ok t.canon :=
-  readTerm_writeq e G P he hs hcap ops (tableOK_of_valid hvalid) dq t hw hn hv
+  readTerm_writeq e G P he hcap ops (tableOK_of_valid hvalid) dq t hw hn hv
 
 /-- P2, writer/lexer half: the text lexes to exactly the token sequence `qt` — the spacing rules of the
     writer never glue two tokens together nor split one (`Write.lexSeq_qt_cont`, by induction on the term) -/
-theorem C06_op_tokens (e : Env) (G : UInt64 → GText) (P : UInt64 → Bool) (he : EnvOK e G P) (hs : SignOK G P)
+theorem C06_op_tokens (e : Env) (G : UInt64 → GText) (P : UInt64 → Bool) (he : EnvOK e G P)
     (hcap : CapOK e.cfg) (ops : Ops.Table) (hops : tableOK ops = true) (t : Term)
     (hw : wfTerm t = true) (hn : numsOK P t = true) (hv : noVAR t = true) :
     (tokens e.cfg ((writeq e ops t ++ [' ', '.']).length + 1) (Lexer.ofList (writeq e ops t ++ [' ', '.']))).1 =
       qt e G t (qopts ops) ++ [⟨.end_, ['.']⟩] := by
-  have hseq := lexSeq_writeq e G P he hs hcap ops hops t hw hn hv
+  have hseq := lexSeq_writeq e G P he (signOK_of_envOK he) hcap ops hops t hw hn hv
   exact tokens_all e.cfg hseq _ (by have := hseq.length_le; omega)
 
 /-- P2, reader half on its own: if the text lexes to the tokens `qt` (a decidable check, `Write.lexOK`), then
     `read_term` returns `T` — needs neither `CapOK` nor `noVAR`. -/
 theorem C06_op_roundtrip_of_tokens (e : Env) (G : UInt64 → GText) (P : UInt64 → Bool) (he : EnvOK e G P)
-    (hs : SignOK G P) (ops : Ops.Table) (hops : tableOK ops = true) (dq : Read.DoubleQuotes) (t : Term)
+    (ops : Ops.Table) (hops : tableOK ops = true) (dq : Read.DoubleQuotes) (t : Term)
     (hw : wfTerm t = true) (hn : numsOK P t = true) (hlex : lexOK e G ops t = true) :
     Read.readTerm e.cfg ops dq (writeq e ops t ++ [' ', '.']) = .ok t.canon :=
-  readTerm_writeq_of_lexOK e G P he hs ops hops dq t hw hn hlex
+  readTerm_writeq_of_lexOK e G P he ops hops dq t hw hn hlex
 
 /-- the character-class oracle the driver runs with (tables regenerated from the Go toolchain's package
     unicode) counts no graphic character as a capital letter; nor does the ASCII oracle -/
@@ -379,12 +379,6 @@ def exT : Term :=
       (.cons (.app "*" (.cons (.atom "a") (.cons (.app "-" (.cons (.atom "b") (.cons (.atom "c") .nil))) .nil))) .nil)))
     (.cons (.app "\\+" (.cons (.app "f" (.cons (.atom "-") (.cons (.var 7) .nil))) .nil)) .nil))
 
-theorem exSign : SignOK exG exP := by
-  intro b hb
-  have : b = 0x3FF8000000000000 := by simpa [exP] using hb
-  subst this
-  decide
-
 end OpExample
 
 open OpExample PrologVerif.C06Example in
@@ -398,7 +392,7 @@ open OpExample PrologVerif.C06Example in
 -- … so the theorem applies to it (every hypothesis discharged), for every double_quotes flag
 example (dq : Read.DoubleQuotes) :
     Read.readTerm exEnv.cfg Ops.defaultTable dq (writeq exEnv Ops.defaultTable exT ++ [' ', '.']) = .ok exT.canon :=
-  C06_op_roundtrip exEnv exG exP exEnv_ok exSign capOK_ascii Ops.defaultTable (by decide +kernel) dq exT
+  C06_op_roundtrip exEnv exG exP exEnv_ok capOK_ascii Ops.defaultTable (by decide +kernel) dq exT
     (by decide +kernel) (by decide +kernel) (by decide +kernel)
 
 /-! #### the hypotheses are needed: witnesses on the model
